@@ -286,6 +286,38 @@ def gen_c04_subs(p, tier):
     return name, "\n".join(L)
 
 
+def gen_c04_subs2(p, tier):
+    """pattern subscriber p plus a second, literal subscriber of a/a (a literal sibling must not shadow a wildcard)"""
+    name = f"c04_subs2__{pname(p)}"
+    L = []
+    a = L.append
+    pstr = "/".join(p)
+    a(f'// @h props=C04,C03 tier={tier} cap=400 desc="subscriber of pattern {pstr} next to a literal subscriber of a/a: each is notified for exactly its own keys, for every key of the menu" bounds="pattern {pstr}; keys a,b,a/a,a/b,b/a,b/b; 2 subscribers"')
+    a("#[kani::proof]")
+    a("#[kani::unwind(4)]")
+    a(f"fn {name}() {{")
+    a("    let mut subs = Subscribers::default();")
+    a(f"    let pat = {patlit(p)};")
+    a('    let lit = [KeySegment::Regular(s("a")), KeySegment::Regular(s("a"))];')
+    a("    let (tx, rx) = tokio::sync::mpsc::channel::<worterbuch_common::PStateEvent>(1);")
+    a("    let (tx2, rx2) = tokio::sync::mpsc::channel::<worterbuch_common::PStateEvent>(1);")
+    a("    subs.add_subscriber(&pat, Subscriber::new(SubscriptionId::new(cid(1), 1), Vec::new(), EventSender::PState(tx), false));")
+    a("    subs.add_subscriber(&lit, Subscriber::new(SubscriptionId::new(cid(2), 2), Vec::new(), EventSender::PState(tx2), false));")
+    for k in M:
+        exp = (1 if ref_match(p, k.split("/")) else 0) + (1 if k == "a/a" else 0)
+        a(f"    let v = subs.get_subscribers(&{keylit(k)});")
+        a(f'    assert!(v.len() == {exp}, "C04: for key {k} exactly the subscribers whose pattern matches are notified ({pstr} and the literal a/a)");')
+        a("    core::mem::forget(v);")
+    a("    kani::cover!(true);")
+    a("    core::mem::forget(subs);")
+    a("    core::mem::forget(rx);")
+    a("    core::mem::forget(rx2);")
+    a("    core::mem::forget(pat);")
+    a("    core::mem::forget(lit);")
+    a("}")
+    return name, "\n".join(L)
+
+
 def main_c04():
     out_store = os.path.join(os.path.dirname(OUT), "c04_gen.rs")
     out_subs = os.path.join(os.path.dirname(OUT), "c04_subs_gen.rs")
@@ -311,12 +343,88 @@ def main_c04():
         parts.append(code)
         parts.append("")
         n[tier] += 1
+    for p in patterns(2):
+        if not legal(p):
+            continue
+        tier = "quick" if "/".join(p) in ("?", "#", "a/?", "?/a", "?/b", "a/#", "?/?", "a/a") else "thorough"
+        name, code = gen_c04_subs2(p, tier)
+        parts.append(code)
+        parts.append("")
+        n[tier] += 1
     open(out_subs, "w").write("\n".join(parts))
     print(f"generated C04 {n}")
 
 
+# ----------------------------------------------------------------------------- C15 containment
+def keys_upto(depth, alphabet=("a", "b")):
+    out = []
+    for n in range(1, depth + 1):
+        for k in itertools.product(alphabet, repeat=n):
+            out.append(list(k))
+    return out
+
+
+def store_rel(p, k):
+    """the relation the store answers with (documented relation + the K/# quirk)"""
+    return ref_match(p, k) or store_rel_extra(p, k)
+
+
+def main_c15():
+    out = os.path.join(os.path.dirname(OUT), "..", "..", "..", "auth", "src", "h", "c15_gen.rs")
+    pats = [p for p in patterns(3) if legal(p)]
+    keys = keys_upto(4)
+    parts = ["// @module auth::h", "// GENERATED by /verif/gen/gen_core.py - do not edit by hand.",
+             "// C15 (a)  containment: whenever auth::pattern_matches(grant, request) says yes, every key the REQUEST can",
+             "// return / change / remove (relation of the store, C04) is covered by the GRANT. Both are concrete strings from",
+             "// the menu of all legal patterns of <= 3 segments over {a,b,?,#} (84 x 84 pairs, one harness per grant); the",
+             "// reference 'is the request contained in the grant' is computed by the generator over all keys of depth <= 4.", ""]
+    n = 0
+    for g in pats:
+        bad = [r for r in pats if any(store_rel(r, k) and not store_rel(g, k) for k in keys)]
+        good = [r for r in pats if r not in bad]
+        name = "c15_contain__" + pname(g)
+        tier = "quick" if "/".join(g) in ("a", "?", "a/?", "a/#", "?/b", "b/a") else "thorough"
+        L = []
+        if not bad:
+            # the grant covers everything: nothing to refuse; keep a reachability witness only
+            L.append(f'// @h props=C15 tier={tier} cap=600 desc="grant {"/".join(g)} covers every request of the menu: witness that contained requests are accepted" bounds="3 requests"')
+            L.append("#[kani::proof]")
+            L.append("#[kani::unwind(6)]")
+            L.append(f"fn {name}() {{")
+            L.append(f'    let grant = "{"/".join(g)}";')
+            L.append("    kani::cover!(" + " && ".join(f'pattern_matches(grant, "{"/".join(r)}")' for r in good[:3]) + ");")
+            L.append("}")
+            parts.append("\n".join(L))
+            parts.append("")
+            n += 1
+            continue
+        L.append(f'// @h props=C15,C17 tier={tier} cap=900 desc="grant {"/".join(g)}: pattern_matches refuses every request pattern that can reach a key the grant does not cover ({len(bad)} requests), accepts some contained one" bounds="requests: all legal patterns of <= 3 segments; keys of depth <= 4 (generator)"')
+        L.append("#[kani::proof]")
+        L.append("#[kani::unwind(6)]")
+        L.append(f"fn {name}() {{")
+        L.append(f'    let grant = "{"/".join(g)}";')
+        L.append("    let sel: u8 = kani::any();")
+        L.append(f"    kani::assume((sel as usize) < {len(bad)});")
+        L.append("    // the solver picks the request; each branch calls the matcher with a concrete string")
+        for i, r in enumerate(bad):
+            kw = "if" if i == 0 else "} else if"
+            L.append(f'    {kw} sel == {i} {{')
+            L.append(f'        assert!(!pattern_matches(grant, "{"/".join(r)}"), "C15: request {"/".join(r)} reaches keys that grant {"/".join(g)} does not cover, it must not be authorized");')
+        if bad:
+            L.append("    }")
+        if good:
+            L.append("    kani::cover!(" + " || ".join(f'pattern_matches(grant, "{"/".join(r)}")' for r in good[:3]) + ");")
+        L.append("}")
+        parts.append("\n".join(L))
+        parts.append("")
+        n += 1
+    open(out, "w").write("\n".join(parts))
+    print(f"generated C15 containment harnesses: {n}")
+
+
 def main():
     main_c04()
+    main_c15()
     parts = ["// @module store::h", "// GENERATED by /verif/gen/gen_core.py - do not edit by hand.", ""]
     n = {"quick": 0, "thorough": 0}
     for shape, stier in shapes():
@@ -326,7 +434,8 @@ def main():
                 # quick tier: a representative subset, everything else is thorough
                 tier = stier
                 if stier == "quick":
-                    interesting = (key in shape) or key in ("b/a", "a/b")
+                    inner = any(k.startswith(key + "/") for k in shape)   # absent key whose node exists
+                    interesting = (key in shape) or key in ("b/a", "a/b") or inner
                     if not interesting:
                         tier = "thorough"
                     if op == "delete" and key not in shape:
